@@ -254,6 +254,48 @@ func (e *Engine) AddColumn(tableName string, c ColumnDef) error {
 	return nil
 }
 
+// ReorderColumns changes the ordinal positions of a table's columns (a schema
+// change that keeps the column count, like ALTER TABLE ... MODIFY c ... AFTER
+// d). order lists every column name exactly once. Same locking rule as
+// AddColumn.
+func (e *Engine) ReorderColumns(tableName string, order []string) error {
+	<-e.wlock
+	defer e.releaseW()
+	e.mu.Lock()
+	defer e.mu.Unlock()
+	t, ok := e.tables[tableName]
+	if !ok {
+		return fmt.Errorf("no table %s", tableName)
+	}
+	if len(order) != len(t.def.Columns) {
+		return fmt.Errorf("ReorderColumns: %d names for %d columns", len(order), len(t.def.Columns))
+	}
+	nt := &table{def: t.def, colIdx: map[string]int{}, nextAuto: t.nextAuto}
+	nt.def.Columns = nil
+	from := make([]int, len(order))
+	for i, name := range order {
+		j, ok := t.colIdx[name]
+		if !ok {
+			return fmt.Errorf("ReorderColumns: no column %s", name)
+		}
+		if _, dup := nt.colIdx[name]; dup {
+			return fmt.Errorf("ReorderColumns: column %s listed twice", name)
+		}
+		nt.colIdx[name] = i
+		nt.def.Columns = append(nt.def.Columns, t.def.Columns[j])
+		from[i] = j
+	}
+	for _, r := range t.rows {
+		nr := make([]driver.Value, len(r))
+		for i, j := range from {
+			nr[i] = r[j]
+		}
+		nt.rows = append(nt.rows, nr)
+	}
+	e.tables[tableName] = nt
+	return nil
+}
+
 // Def returns the definition of a table.
 func (e *Engine) Def(tableName string) (TableDef, bool) {
 	e.mu.Lock()
